@@ -357,6 +357,13 @@ def expand_traj(d: dict, pm_desc: dict | None = None) -> dict:
         hi = FF_HI_TAKEOFF_FACTOR * lto_ff[3]
         ne = int(pm_desc['n_eng'])
         ff = [0.0 if u is None else ne * (lo + float(u) * (hi - lo)) for u in d['ff_u']]
+        for i, which in d.get('ff_boundary', []):
+            # a sea-level, zero-speed point whose per-engine (= sea-level-static equivalent) flow sits exactly on a
+            # thrust-category threshold (mid-point between two LTO calibration flows): both sides of the comparison
+            # must use the same rule there
+            i = i % n
+            alt[i], tas[i] = 0.0, 0.0
+            ff[i] = ne * ((lto_ff[which] + lto_ff[which + 1]) / 2.0)
     if not (len(alt) == len(tas) == len(ff) == n):
         raise core.HarnessError('inconsistent synthetic trajectory description')
     return {'fuel_mass': fm, 'altitude': alt, 'true_airspeed': tas, 'fuel_flow': ff, 'int_kg': bool(d.get('int_kg')),
@@ -1269,6 +1276,8 @@ def st_synthetic_traj():
                'n_climb': nc, 'n_cruise': total - nc - nd, 'n_descent': nd}
         if draw(st.integers(0, 7)) == 0:
             out['int_kg'] = True
+        if draw(st.integers(0, 4)) == 0:
+            out['ff_boundary'] = [[draw(st.integers(0, n - 1)), draw(st.integers(0, 1))]]
         return out
 
     return traj()
